@@ -483,7 +483,7 @@ func combineHeaders(srcs []*Profile) (*Profile, error) {
 	var docURL string
 	var defaultSampleType string
 	for _, s := range srcs {
-		if timeNanos == 0 || s.TimeNanos < timeNanos {
+		if s.TimeNanos != 0 && (timeNanos == 0 || s.TimeNanos < timeNanos) {
 			timeNanos = s.TimeNanos
 		}
 		durationNanos += s.DurationNanos
